@@ -1,5 +1,21 @@
-from mulib import mu_check
+"""C05: what the timed / cancellable waits return.
+L1 (Mu.tla): nsync_cv_wait_with_deadline / nsync_mu_wait_with_deadline over the real mu.c, cv.c, mu_wait.c with
+nsync_sem_wait_with_cancel_ as one region.  L2 (Note.tla, procedure swc): nsync_sem_wait_with_cancel_ itself (sem_wait.c),
+step by step against notifiers, the note's own expiry, the caller's deadline and semaphore wake-ups: it returns ECANCELED only
+if the note has a reason to be notified, ETIMEDOUT only at or after the deadline, 0 only for a wake-up (RetHonest + O-ret)."""
+from mulib import *
+import l2lib, notelib
+
+
+def l2_part(run, exe_unused, results, env):
+    exe2 = build("h_l2")
+    N = notelib
+    ncf = [(n, dict(N.note_conf(c), _c=c)) for n, (props, t, c) in N.CONF.items() if "C05" in props and (t == "q" or run.tier == "thorough")]
+    l2lib.run_family(run, exe2, "Note", "C05", ncf, lambda conf: N.consts_of(conf["_c"]), {"RetHonest"}, {"O-ret", "O-lin", "O-prog"})
+    exer = build("h_l2r")
+    l2lib.random_runs(run, exer, "Note", ncf, 1000 if run.tier == "quick" else 30000, "C05", {"O-ret", "O-lin", "O-prog"})
 
 
 def main(tier, replay=None):
-    return mu_check("C05", tier, replay)
+    return mu_check("C05", tier, replay, post=l2_part,
+                    extra_rule="; L2 part: nsync_sem_wait_with_cancel_ (sem_wait.c) step by step in Note.tla (procedure swc) over the ideal note lock")
